@@ -9,7 +9,7 @@ ID = "C13"
 LEVEL = "exploration"
 FLAVORS = ["asan"]
 RULE = ("operation sequences over 2-3 tags through the real DropInServiceAdaptor/Engine (scheduleDropInAdd/Remove -> updateDropIns -> prerun -> "
-        "runOnce, one tick after every operation): add / re-add / remove / failing add (unknown target ruleset, overriding a part the base did "
+        "runOnce, one tick after every operation, or several requests queued between two ticks): add / re-add / remove / failing add (unknown target ruleset, overriding a part the base did "
         "not open up, second ruleset of a multi-ruleset file failing, unknown plugin), drop-ins supplying detectors, actions, both, several "
         "rulesets and prekill hooks, base rulesets with all 8 drop-in permission combinations; after each step the tick's call order "
         "(which plugin instances ran, in which order), base enablement, oomd.dropin.added and the hook chosen for probe cgroups must equal "
@@ -144,13 +144,20 @@ class Model:
 
 
 def build_ops(seq):
+    """an op may carry a 4th element True = no tick after it (several requests queue up before one updateDropIns)"""
     ops, n = [], 0
     for op in seq:
+        defer = len(op) > 3 and op[3] or (op[0] == "remove" and len(op) > 2 and op[2])
         if op[0] == "add":
             n += 1
-            ops.append({"op": "add", "tag": op[1], "text": json.dumps(variant(op[1], op[2], n)), "_cfg": variant(op[1], op[2], n)})
+            o = {"op": "add", "tag": op[1], "text": json.dumps(variant(op[1], op[2], n)), "_cfg": variant(op[1], op[2], n)}
         else:
-            ops.append({"op": "remove", "tag": op[1]})
+            o = {"op": "remove", "tag": op[1]}
+        if defer:
+            o["defer"] = True
+        ops.append(o)
+    if ops and ops[-1].get("defer"):
+        ops[-1].pop("defer")  # always finish with a tick
     return ops
 
 
@@ -169,7 +176,21 @@ def sequences(seed, tier):
             out.append(list(seq))
     al3 = alphabet(["a", "b", "c"])
     for _ in range(300 if quick else 5000):
-        out.append([rng.choice(al3) for _ in range(rng.randint(3, 6 if quick else 10))])
+        seq = [rng.choice(al3) for _ in range(rng.randint(3, 6 if quick else 10))]
+        if rng.random() < 0.6:
+            # several requests between two main-loop ticks
+            seq = [(o + (True,)) if rng.random() < 0.5 else o for o in seq]
+        out.append(seq)
+    # every 3-op sequence over a small alphabet with every pattern of "no tick in between"
+    small = [("add", t, k) for t in ("a", "b") for k in (0, 1, 3)] + [("remove", "a"), ("remove", "b")]
+    for seq in itertools.product(small, repeat=3):
+        for d0 in (False, True):
+            for d1 in (False, True):
+                if not (d0 or d1):
+                    continue
+                if quick and rng.random() > 0.35:
+                    continue
+                out.append([seq[0] + ((True,) if d0 else ()), seq[1] + ((True,) if d1 else ()), seq[2]])
     perms = list(itertools.product([True, False], repeat=6))
     return [(seq, perms[(i * 7 + 3) % 64] if i % 3 else (True, True, i % 2 == 0, False, True, i % 4 == 0)) for i, seq in enumerate(out)]
 
@@ -202,6 +223,8 @@ def judge(case, results):
             ops1 = build_ops(seq) + [{"op": "remove", "tag": T}]
             full = build_ops(seq)
             ops2 = [o for o in full if o["tag"] != T]
+            if ops2 and ops2[-1].get("defer"):
+                ops2[-1] = {k_: v_ for k_, v_ in ops2[-1].items() if k_ != "defer"}
             for ops_ in (ops1, ops2):
                 qs.append({"q": "dropin_seq", "base": json.dumps(base), "ops": [{k: val for k, val in o.items() if k != "_cfg"} for o in ops_], "probes": PROBES})
                 metas.append((seq, perm, base, ops_, True))
@@ -223,13 +246,26 @@ def judge(case, results):
             steps = a["steps"]
             base_insts = {x.split("#")[0].split(":")[1]: x.split("#")[1] for x in steps[0]["tick"]}
             prev = steps[0]
+            pending_deferred = False
             for si, (op, st) in enumerate(zip(ops, steps[1:])):
+                if st.get("deferred"):
+                    # queued only; the model applies it now (the queue is drained in arrival order at the next tick)
+                    if op["op"] == "add":
+                        ok = m.add(op["tag"], op["_cfg"])
+                        if (st["sched"] is True) != ok:
+                            v.bad("add-accepted-mismatch", "", "seq %s perms %s step %d: scheduleDropInAdd=%s, model says %s" % (seq, perm, si, st["sched"], ok))
+                            break
+                    else:
+                        m.remove(op["tag"])
+                    v.count("deferred_requests")
+                    pending_deferred = True
+                    continue
                 if op["op"] == "add":
                     ok = m.add(op["tag"], op["_cfg"])
                     if (st["sched"] is True) != ok:
                         v.bad("add-accepted-mismatch", "", "seq %s perms %s step %d: scheduleDropInAdd=%s, model says %s (%s)" % (seq, perm, si, st["sched"], ok, op["_cfg"]))
                         break
-                    if not ok and (st["tick"] != prev["tick"] or st["hooks"] != prev["hooks"] or st["added"] != prev["added"]):
+                    if not ok and not pending_deferred and (st["tick"] != prev["tick"] or st["hooks"] != prev["hooks"] or st["added"] != prev["added"]):
                         v.bad("refused-add-left-something", "", "seq %s perms %s step %d: refused add changed the engine: %s -> %s" % (seq, perm, si, strip_inst(prev["tick"]), strip_inst(st["tick"])))
                         break
                 else:
@@ -257,6 +293,7 @@ def judge(case, results):
                 if m.added() >= 2:
                     multi += 1
                 prev = st
+                pending_deferred = False
             i += 1
         else:
             a2, crash2 = ans[i + 1]
